@@ -81,6 +81,41 @@ impl<'a> Gen<'a> {
         self.tag
     }
 
+    /// The write-temp / sync / rename-over / sync_dir idiom (atomic replace of a file), with seeded
+    /// omissions in the unguarded slice. Each op still goes through the model and the guards of the caller.
+    pub fn idiom_atomic_replace(&mut self) -> Vec<FsOp> {
+        let (dir, dst, tmp, mk) = match self.rng.below(3) {
+            0 => ("/", "/a", "/b", false),
+            1 => ("/", "/b", "/a", false),
+            _ => ("/d1", "/d1/a", "/d1/b", true),
+        };
+        let mut v = Vec::new();
+        if mk {
+            v.push(FsOp::CreateDir { path: "/d1".into(), front: self.front() });
+            v.push(FsOp::SyncDir { path: "/".into(), front: self.front() });
+        }
+        let file = |g: &mut Self, h: u8, path: &str, v: &mut Vec<FsOp>| {
+            v.push(FsOp::Open { h, path: path.into(), read: false, write: true, append: false, truncate: true, create: true, create_new: false, front: g.front() });
+            let tag = g.next_tag();
+            v.push(FsOp::Write { h, len: g.rng.range(1, 12) as u32, tag });
+            v.push(if g.rng.bool() { FsOp::SyncAll { h } } else { FsOp::SyncData { h } });
+            v.push(FsOp::Close { h });
+        };
+        file(self, 0, dst, &mut v);
+        v.push(FsOp::SyncDir { path: dir.into(), front: self.front() });
+        file(self, 1, tmp, &mut v);
+        v.push(FsOp::SyncDir { path: dir.into(), front: self.front() });
+        v.push(FsOp::Rename { from: tmp.into(), to: dst.into(), front: self.front() });
+        v.push(FsOp::SyncDir { path: dir.into(), front: self.front() });
+        if !self.guarded {
+            // drop one of the syncs now and then (lands in the territory of the known findings)
+            let syncs: Vec<usize> = v.iter().enumerate().filter(|(_, o)| matches!(o, FsOp::SyncDir { .. } | FsOp::SyncAll { .. } | FsOp::SyncData { .. })).map(|(i, _)| i).collect();
+            let k = *self.rng.pick(&syncs);
+            v.remove(k);
+        }
+        v
+    }
+
     /// Generate one op for model state `m` (does not apply it).
     pub fn op(&mut self, m: &Model, gs: &GuardState) -> FsOp {
         if self.guarded {
@@ -94,6 +129,14 @@ impl<'a> Gen<'a> {
                                 if exec_model(&mut probe, &op) != Obs::Unjudged {
                                     return op;
                                 }
+                            }
+                        }
+                    }
+                    if let Some(p) = gs.removed_dir_in.clone() {
+                        if self.rng.chance(1, 2) {
+                            let op = FsOp::RemoveDir { path: p, front: self.front() };
+                            if guard_violation(m, gs, &op).is_none() {
+                                return op;
                             }
                         }
                     }
@@ -248,6 +291,8 @@ pub struct GuardState {
     pub strict_remove: bool,
     /// destination of the rename that is still unsynced (a quiescent file may be renamed on in a chain)
     pub renamed_to: Option<String>,
+    /// parent of the directory whose removal is still unsynced (that parent may be removed next)
+    pub removed_dir_in: Option<String>,
 }
 
 pub const KF_HANDLE: &str = "open-handle-across-rename-or-unlink";
@@ -304,6 +349,18 @@ pub fn guard_violation(m: &Model, gs: &GuardState, op: &FsOp) -> Option<&'static
                     && parent_of(from) == parent_of(to)
                     && gs.must_sync.len() == 1
                     && gs.must_sync.contains_key(&parent_of(from)) =>
+            {
+                None
+            }
+            // removing an (empty, quiescent) directory right after its last sub-directory, bottom-up
+            FsOp::RemoveDir { path, .. }
+                if gs.removed_dir_in.as_deref() == Some(path.as_str())
+                    && m.is_dir(path)
+                    && quiescent(m, path)
+                    && path != "/"
+                    && gs.must_sync.len() == 1
+                    && gs.must_sync.contains_key(path)
+                    && gs.must_sync.values().all(|w| *w == KF_REMOVE) =>
             {
                 None
             }
@@ -401,6 +458,7 @@ pub fn guard_step(gs: &mut GuardState, op: &FsOp, mo: &Obs) {
             gs.must_sync.remove(path);
             if gs.must_sync.is_empty() {
                 gs.renamed_to = None;
+                gs.removed_dir_in = None;
             }
         }
         FsOp::Rename { from, to, .. } if *mo == Obs::Unit && from != to => {
@@ -410,6 +468,7 @@ pub fn guard_step(gs: &mut GuardState, op: &FsOp, mo: &Obs) {
         }
         FsOp::RemoveFile { path, .. } | FsOp::RemoveDir { path, .. } | FsOp::RemoveDirAll { path, .. } if *mo == Obs::Unit => {
             gs.must_sync.insert(parent_of(path), KF_REMOVE);
+            gs.removed_dir_in = if matches!(op, FsOp::RemoveDir { .. }) { Some(parent_of(path)) } else { None };
         }
         _ => {}
     }
